@@ -183,7 +183,12 @@ def run(chk):
     # ---- R7 operands without ORDER BY
     flat_s = [st for st, _c in flat(items_s)]
     cq_calls = [(st, c) for st in flat_s for c in calls_in(st) if (dotted(c.func) or "").endswith("compile_query") and len(c.args) >= 2]
-    chk.floor("R7", "compile_query calls in the SQL Union slice", len(cq_calls), 2)
+    if sql_union_decided:
+        # R1s interpreted the branch with ordered operands: whether an operand keeps its ORDER BY is decided there
+        chk.ok("R7", sql, scfg.func, "sql Union: operands without ORDER BY - decided by interpretation (R1s)")
+        cq_calls = []
+    else:
+        chk.floor("R7", "compile_query calls in the SQL Union slice", len(cq_calls), 2)
     for st, c in cq_calls:
         qarg = norm(c.args[1])
         idx = flat_s.index(st)
